@@ -1855,6 +1855,8 @@ impl<'a, MutexType, T> FusedFuture for ChannelReceiveFuture<'a, MutexType, T> {'
     {'name': 'benign-refactor-RF79-mpmc-refill-order-repaired', 'props': ALLP + ['C16'], 'patch': 'benign/RF79/patch.diff'},
     {'name': 'benign-refactor-RF80-mpmc-shutdown-repaired', 'props': ALLP + ['C16'], 'patch': 'benign/RF80/patch.diff'},
     {'name': 'benign-refactor-RF81-mpmc-stream-helper-repaired', 'props': ALLP + ['C16'], 'patch': 'benign/RF81/patch.diff'},
+    {'name': 'benign-refactor-RF82-state-broadcast-cleanup-repaired', 'props': ALLP + ['C16'], 'patch': 'benign/RF82/patch.diff'},
+    {'name': 'benign-refactor-RF83-event-cleanup-repaired', 'props': ALLP + ['C16'], 'patch': 'benign/RF83/patch.diff'},
     {'name': 'benign-unrelated-additions', 'props': ALLP, 'edits': [
         {'file': 'src/sync/semaphore.rs',
          'old': '''    /// Returns the amount of permits that are available on the semaphore
